@@ -44,6 +44,7 @@ V_HARNESS(h_msg)
 {
   PROXY_CLNT *a, *b; struct clnt_obs b0, b1, a0, o0[3], o1[3]; struct dev_obs d0, d1; struct env_obs e0, e1;
   uint32_t type, len, nflags; vbi_bool ok, taken = FALSE; int st0; unsigned i;
+  static uint8_t tail0[sizeof(VBIPROXY_MSG)];                 /* copy of the message buffer before the step (frame condition on its tail) */
   V_INIT();
   w_init();
   w_device(DEVOPEN);
@@ -81,7 +82,14 @@ V_HARNESS(h_msg)
   obs_clnt(&a0, a); obs_clnt(&b0, b); obs_dev(&d0, 0); obs_env(&e0);
   for (i = 0; i < NCL; i++) obs_clnt(&o0[i], W_cl[i]);
   nflags = a->msg_buf.body.chn_notify_req.notify_flags;
+#if MSGT == 5
+  memcpy(tail0, &a->msg_buf, sizeof tail0);
+#endif
 
+  w_dump("before message");
+#ifndef VERIF_CBMC
+  if (getenv("C19_TRACE")) { printf("   message from client%d: type=%u len=%u", ACT, type, len); for (i = 0; i < 24; i++) printf(" %02x", ((uint8_t *) &a->msg_buf.body)[i]); printf("\n"); }
+#endif
   /* ---- proxyd.c:2413-2428 ---- */
   ok = vbi_proxyd_check_msg(&a->msg_buf, &a->endianSwap);
 #if MSGT == 99
@@ -98,6 +106,7 @@ V_HARNESS(h_msg)
   }
 #endif
 
+  w_dump("after message");
   obs_clnt(&b1, b); obs_dev(&d1, 0); obs_env(&e1);
   /* a rejected message changes nothing but the connection's own state (which is closed) */
   if (!ok || !taken) {
@@ -141,6 +150,16 @@ V_HARNESS(h_msg)
     if (type == MSG_TYPE_CONNECT_REQ)
       V_ASSERT((a->state == REQ_STATE_FORWARD && ntohl(a->msg_buf.head.type) == MSG_TYPE_CONNECT_CNF) ||
                (a->state == REQ_STATE_WAIT_CLOSE && ntohl(a->msg_buf.head.type) == MSG_TYPE_CONNECT_REJ), "connect_reply");
+#if MSGT == 5
+    { /* CBMC checks an index into a MEMBER array only against the end of the enclosing object: services[strict+1] with strict < -1 lands in
+         msg_buf, with strict > 2 in the members behind services[] (checked above).  Frame condition: the part of msg_buf behind the reply is untouched */
+      unsigned from = sizeof(VBIPROXY_MSG_HEADER) + (ntohl(a->msg_buf.head.type) == MSG_TYPE_SERVICE_CNF ? sizeof(VBIPROXY_SERVICE_CNF) : sizeof(VBIPROXY_SERVICE_REJ));
+      const uint8_t *m = (const uint8_t *) &a->msg_buf; int same = 1;
+      for (i = sizeof(VBIPROXY_MSG_HEADER) + sizeof(VBIPROXY_SERVICE_REJ); i + 8 <= sizeof(VBIPROXY_MSG); i += 8)      /* 107 words */
+        if (i >= from) same &= (0 == memcmp(m + i, tail0 + i, 8));
+      V_ASSERT(same, "service_msg_leaves_msg_buf_tail");
+    }
+#endif
     if (type == MSG_TYPE_SERVICE_REQ)
       V_ASSERT(a->state == REQ_STATE_FORWARD && (ntohl(a->msg_buf.head.type) == MSG_TYPE_SERVICE_CNF || ntohl(a->msg_buf.head.type) == MSG_TYPE_SERVICE_REJ), "service_reply");
   }
@@ -185,7 +204,6 @@ V_HARNESS(h_msg)
 #endif
 #define RD_STREAM (2 * 3 * C19_MAXCHUNK)
 
-static uint32_t be32(const uint8_t *p) { return ((uint32_t) p[0] << 24) | ((uint32_t) p[1] << 16) | ((uint32_t) p[2] << 8) | p[3]; }
 
 V_HARNESS(h_read)
 {
@@ -258,7 +276,9 @@ V_HARNESS(h_loop)
   for (i = 0; i < NCL; i++) {
     PROXY_CLNT *c = w_client(0, 0);
     c->io.sock_fd = 10 + (int) i;
-    V_ASSUME(c->all_services == 0 && c->chn_state.token_state == REQ_TOKEN_NONE && c->state != REQ_STATE_WAIT_CLOSE);
+    /* concrete, not assumed: symex then skips the service / channel recomputation of the unlink step (covered by upd_services, disconnect) */
+    c->all_services = 0; c->services[0] = c->services[1] = c->services[2] = c->services[3] = 0;
+    c->chn_state.token_state = REQ_TOKEN_NONE; c->chn_profile.is_valid = 0;
   }
   w_link();
   w_queue();
@@ -289,7 +309,8 @@ V_HARNESS(h_loop)
       V_ASSERT(o1.readOff <= sizeof(W_cl[i]->msg_buf) && o1.readLen <= sizeof(W_cl[i]->msg_buf), "read_state_within_buffer");
       if (!touched[i] && o0[i].chn_status_ind == 0 &&
           !(o0[i].state == REQ_STATE_WAIT_CON_REQ && C19.now > o0[i].lastIoTime + SRV_IO_TIMEOUT))
-        V_ASSERT(same_clnt(&o0[i], &o1), "idle_connection_untouched");
+      { o1.p_next = o0[i].p_next;                                         /* list linkage changes when a neighbour is unlinked */
+        V_ASSERT(same_clnt(&o0[i], &o1), "idle_connection_untouched"); }
     }
     V_ASSERT(proxy.clnt_count == (int) alive, "client_count");
     V_ASSERT(e1.n_close == e0.n_close + gone_now, "dropped_connection_closed_once");
@@ -342,66 +363,84 @@ V_HARNESS(h_timer)
 }
 
 /* =====================================================================================================
- * (2) disconnect at any point: the connection of client ACT fails (recv() returns 0 or an error while select()
- * reported it readable, or it is in the middle of a reply and send() fails); REAL vbi_proxyd_handle_client_sockets:
- * vbi_proxyd_close, unlink, vbi_proxyd_update_services, vbi_proxyd_channel_update, free.  The other clients are not
- * ready (DROP_IDLE=0: a reply of theirs is in flight) or idle with nothing queued (DROP_IDLE=1).
- * Asserts: the connection is closed once and unlinked; its queue references are gone (queue invariant without it),
- * the token it held is free for others, holders keep theirs, invariant.
+ * (2) disconnect at any point: vbi_proxyd_close() on client ACT in every connection state (any token state, any
+ * cursor into the frame queue, idle or in the middle of a reply), followed by what vbi_proxyd_handle_client_sockets
+ * does with a CLOSED connection (proxyd.c:2516-2544, replicated: unlink, [vbi_proxyd_update_services: obligation
+ * upd_services], REAL vbi_proxyd_channel_update, free).  Running the whole of vbi_proxyd_handle_client_sockets here
+ * stalls symex (measured > 400 s: the frame forwarding loop is explored for the merged closed/open state).
+ * Asserts: socket closed once, queue references released (queue invariant without the client, frames nobody else
+ * needs are back in the free list), the token it held is free: nobody else lost a token, a client granted now had asked.
  * ===================================================================================================== */
-#ifndef DROP_IDLE
-#define DROP_IDLE 0
-#endif
-#ifndef FAILKIND
-#define FAILKIND 0
-#endif
 V_HARNESS(h_drop)
 {
-  fd_set rd, wr; struct clnt_obs o0[3], o1[3]; struct env_obs e0, e1; unsigned i; PROXY_CLNT *a; int a_tok, a_fd;
+  struct clnt_obs o0[3], o1[3]; struct env_obs e0, e1; unsigned i; PROXY_CLNT *a, *prev, *tmp; int a_fd, dev_idx;
   V_INIT();
   w_init();
   w_device(DEVOPEN);
-  for (i = 0; i < NCL; i++) {
-    PROXY_CLNT *c = w_client((i != ACT && i == NCL - 1) ? BDEV : 0, 0);
-    c->io.sock_fd = 10 + (int) i;
-    if (i != ACT) {
-      if (DROP_IDLE) V_ASSUME(c->io.writeLen == 0);
-      else V_ASSUME(c->io.writeLen != 0);
-      if (c->state == REQ_STATE_WAIT_CON_REQ) V_ASSUME(C19.now <= c->io.lastIoTime + SRV_IO_TIMEOUT);   /* no second drop by timeout in the same step */
-    }
-  }
+  for (i = 0; i < NCL; i++) w_client((i != ACT && i == NCL - 1) ? BDEV : 0, 0);
   w_link();
   w_queue();
   w_assume_inv();
-  a = W_cl[ACT]; a_tok = a->chn_state.token_state; a_fd = a->io.sock_fd;
-  if (DROP_IDLE) for (i = 0; i < NCL; i++) if (i != ACT) V_ASSUME(W_cl[i]->p_sliced == NULL);
-  /* the failure (case split FAILKIND, concrete so that the drop path is not merged with a surviving one):
-     0 peer closed (recv returns 0), 1 recv fails with ECONNRESET, 2 connection breaks while a reply is being sent (send fails with EPIPE) */
-  C19.recv_ret[0] = (FAILKIND == 0) ? 0 : -1; C19.recv_err[0] = 2;
-  C19.send_ret[0] = -1; C19.send_err[0] = 2;
-  C19.stream_len = 0;
-  if (FAILKIND == 2) { a->io.writeLen = sizeof(VBIPROXY_MSG_HEADER) + 12; a->io.writeOff = (uint32_t) (in_u8() % 20); a->io.pWriteBuf = &a->msg_buf; }
-  else { a->io.writeLen = 0; a->io.pWriteBuf = NULL; in_u8(); }
+  a = W_cl[ACT]; a_fd = a->io.sock_fd;
   for (i = 0; i < NCL; i++) obs_clnt(&o0[i], W_cl[i]);
   obs_env(&e0);
-  memset(&rd, 0, sizeof rd); memset(&wr, 0, sizeof wr);
-  if (a->io.writeLen == 0) FD_SET(a_fd, &rd); else FD_SET(a_fd, &wr);     /* select(): only the failing connection is ready */
-  vbi_proxyd_handle_client_sockets(&rd, &wr);
-  obs_env(&e1);
+
+  vbi_proxyd_close(a, FALSE);                                   /* proxyd.c:2431 / 2438 / 2490 / 2506 ... */
+
+  V_ASSERT(a->state == REQ_STATE_CLOSED && a->io.sock_fd == -1 && a->p_sliced == NULL && a->io.pWriteBuf == NULL, "close_releases_connection");
+  w_assert_inv("closed");
+  /* proxyd.c:2516-2544 */
+  dev_idx = a->dev_idx;
+  if (proxy.clnt_count > 0) proxy.clnt_count -= 1;
+  tmp = a; prev = (ACT == 0) ? NULL : W_cl[ACT - 1];
+  if (prev == NULL) proxy.p_clnts = a->p_next; else prev->p_next = a->p_next;
+  if (proxy.dev[dev_idx].p_capture != NULL)
+    vbi_proxyd_channel_update(dev_idx, NULL, FALSE);
+  free(tmp);
   W_gone[ACT] = 1;
-  V_ASSERT(!w_in_list(a), "dropped_connection_unlinked");
-  V_ASSERT(e1.n_close == e0.n_close + 1 && C19.last_closed_fd == a_fd, "dropped_connection_closed_once");
-  V_ASSERT(proxy.clnt_count == NCL - 1, "client_count");
+  obs_env(&e1);
+  V_ASSERT(e1.n_close == e0.n_close + 1 && C19.last_closed_fd == a_fd, "socket_closed_once");
   for (i = 0; i < NCL; i++) {
     if (i == ACT) continue;
-    V_ASSERT(w_in_list(W_cl[i]), "other_connections_stay");
     obs_clnt(&o1[i], W_cl[i]);
     tok_step_check(&o0[i], &o1[i], 0, 0);
-    V_ASSERT(o1[i].state == o0[i].state && o1[i].sock_fd == o0[i].sock_fd, "other_connections_open");
-    if (!DROP_IDLE) V_ASSERT(o1[i].writeLen == o0[i].writeLen && o1[i].writeOff == o0[i].writeOff && o1[i].p_sliced == o0[i].p_sliced, "other_io_untouched");
+    V_ASSERT(o1[i].state == o0[i].state && o1[i].sock_fd == o0[i].sock_fd && o1[i].p_sliced == o0[i].p_sliced &&
+             o1[i].writeLen == o0[i].writeLen && o1[i].all_services == o0[i].all_services, "other_connections_untouched");
   }
-  if (a_tok != REQ_TOKEN_NONE) V_REACH("holder_dropped");
+  if (o0[ACT].token_state != REQ_TOKEN_NONE) V_REACH("holder_dropped");
   if (o0[ACT].p_sliced != NULL) V_REACH("reader_dropped");
   w_assert_inv("drop");
+  V_END();
+}
+
+/* =====================================================================================================
+ * (2b) service re-computation after a client left: vbi_proxyd_update_services(dev, NULL, 0, NULL) (proxyd.c:2540)
+ * from an arbitrary state: device/queue invariant, no client structure but all_services touched, device closed
+ * iff nothing is granted any more.
+ * ===================================================================================================== */
+V_HARNESS(h_upd)
+{
+  struct clnt_obs o0[3], o1[3]; unsigned i; vbi_bool r; unsigned un = 0;
+  V_INIT();
+  w_init();
+  w_device(DEVOPEN);
+  for (i = 0; i < NCL; i++) w_client((i == NCL - 1) ? BDEV : 0, 0);
+  w_link();
+  w_queue();
+  w_assume_inv();
+  for (i = 0; i < NCL; i++) obs_clnt(&o0[i], W_cl[i]);
+  r = vbi_proxyd_update_services(0, NULL, 0, NULL);
+  (void) r;
+  for (i = 0; i < NCL; i++) {
+    obs_clnt(&o1[i], W_cl[i]);
+    V_ASSERT(o1[i].state == o0[i].state && o1[i].token_state == o0[i].token_state && o1[i].sock_fd == o0[i].sock_fd &&
+             o1[i].services[0] == o0[i].services[0] && o1[i].services[1] == o0[i].services[1] &&
+             o1[i].services[2] == o0[i].services[2] && o1[i].services[3] == o0[i].services[3], "update_keeps_requests_and_tokens");
+    if (o1[i].dev_idx == 0 && o1[i].state == REQ_STATE_FORWARD) un |= o1[i].all_services;
+    else V_ASSERT(o1[i].all_services == o0[i].all_services, "update_other_device_untouched");
+  }
+  if (proxy.dev[0].p_capture != NULL) { V_ASSERT(proxy.dev[0].all_services == un && un != 0, "device_open_for_union_of_grants"); V_REACH("open"); }
+  else { V_REACH("closed"); }
+  w_assert_inv("upd");
   V_END();
 }
